@@ -34,6 +34,18 @@ CHECKS = {
  "C20": ("enum", "complete enumeration of the 4098 message types against an independent classification table",
          "Every one of the 4096 message types and both negative sentinels is run through every classification entry point, a synthetic header-only frame of that type through GetMessage/Analyse/String at both log levels, and all four decoders; the space is finite and enumerated completely, so within the observation set this is a decision, not a sample.",
          "Trusts the independent table in props/c20.go (MSM4/MSM7 = 1074..1137 ending 4/7, names by stem). Synthetic frames have empty masks only.", "5/C20"),
+ "C10": ("mc", "stateless model checking of the shipped rtcmfilter.HandleMessages under a controlled scheduler (all interleavings of pipeline and writer goroutines per scenario, state-key pruning) + bounded-exhaustive input enumeration under the default schedule",
+         "The real HandleMessages of rtcmfilter is driven through an in-package harness added by go build -overlay; stdout, record and display writers are harness-owned and every Write is a scheduling point. For 9 streams x 4 log configurations every interleaving is explored where the unbounded pass completes (else deviation bound 1-2); all <=2/3-segment menu sequences run under the default schedule. At quiescence stdout must equal the valid frames of the sequential framing, the record must be identical and the display must have exactly one entry per message.",
+         "dailylogger.New is redirected to an in-memory sink (file naming belongs to the dependency). Differential oracle: the implementation's own sequential framing filtered by the independent frame predicate.", "5/C10"),
+ "C11": ("mc", "stateless model checking of the shipped HandleMessages of displayrtcm3 and rtcmfilter under a controlled scheduler, oracle evaluated at the instant the call returns",
+         "Both entry points run instrumented with a harness-owned writer whose Write is a scheduling point (optionally two steps per call); for streams with 1-3 messages every interleaving is explored (unbounded pass completes for all but the largest scenario) and at the moment the call returns on the calling thread the writer must hold the complete expected output.",
+         "Only the writer passed to the entry point is judged. Expected output comes from sequential framing by the implementation.", "5/C11"),
+ "C16": ("mc", "stateless model checking of the shipped rtcmlogger start() with harness-owned stdin/stdout/record writer: all chunkings and all interleavings of the copy loop and the recorder",
+         "start() runs instrumented (os.Stdin/os.Stdout and dailylogger.New redirected at build time); for 8 input sizes around the 8096-byte block, event logging on/off and one- or two-step writes, every chunking and interleaving is explored (exhaustive: the unbounded pass completes for every scenario). When start() returns stdout and the record must both equal stdin and the recorder must terminate.",
+         "The record is an in-memory sink (file naming/rotation belong to the dependency). Read errors other than EOF are not injected.", "5/C16"),
+ "C19": ("mc", "stateless model checking of the proxy's shipped relay and status code over in-memory net.Conn values under a controlled scheduler (chunking + scheduling choices, deviation bound 2; unbounded pass in the thorough tier)",
+         "handleMessages, handleClientMessages, handleServerMessages, keepCircularQueueUpdated and ReportFeed.Status run instrumented (channels, goroutines, sync, time) with the package globals set as start() sets them; a status thread calls Status() at scheduler-chosen moments. 7 client streams (HTML-looking payloads and junk, malformed CRC-valid MSM frames) x 3 server streams: both directions must be relayed byte-for-byte, nothing may panic or spin, every report may list only a prefix of the framing of the client stream and must contain no '<'/'>' beyond the fixed template.",
+         "TCP replaced by in-memory connections (kernel segmentation/timing not covered); status HTTP server not started; daily log writer is the real type with logging disabled; escaping judged on '<' and '>'.", "5/C19"),
 }
 
 def main():
